@@ -9,6 +9,8 @@ N6  `if let Some(p) = I.find(|q| C) { ..; return/continue/break }`  ->  `for p i
 N9  `match X { Some(p) if G => A, _ => B }`       ->  `if let Some(p) = X { if G { A } else { B } } else { B }`
 N7  `I.filter(|a| C).filter_map(|b| B).map(|c| E).collect()`  ->  `{ let mut acc = new(); for x in I { .. acc.push(..) } acc }`
 N10 `let v = X.any(|p| Y.any(|q| C));` (any nesting depth)  ->  `let mut v = false; for p in X { for q in Y { if C { v = true; } } }`
+N11 `if a != b { X } else { Y }`                   ->  `if a == b { Y } else { X }`   (also `if !c {X} else {Y}` -> `if c {Y} else {X}`)
+N12 `let x = { #[cfg(p)] { a } #[cfg(not(p))] { b } };`  ->  the cfg-twin bindings `#[cfg(p)] let x = a; #[cfg(not(p))] let x = b;`
 N5  `W.predicates.extend(X);`                      ->  `for __item in X { W.predicates.push(__item); }`
 """
 
@@ -29,6 +31,35 @@ def _rename_ident(node, old, new):
     if node.get('k') == 'Path' and 'path' in node and len(node['path'].get('segs', [])) == 1 and node['path']['s'] == old:
         return _path(new, node.get('l', 0))
     return {k: (_rename_ident(v, old, new) if not (isinstance(k, str) and k.startswith('_')) else v) for k, v in node.items()}
+
+
+def _cfg_block_let(st):
+    """N12: `let x = { #[cfg(a)] { A } #[cfg(not(a))] { B } };` as cfg-twin lets"""
+    if st.get('k') != 'Local' or st.get('init') is None or st.get('else') is not None or st.get('attrs'):
+        return None
+    b = st['init']
+    if b.get('k') != 'Block' or len(b.get('stmts', [])) < 2:
+        return None
+    parts = []
+    for s_ in b['stmts']:
+        if s_.get('k') != 'Expr' or not isinstance(s_.get('expr'), dict):
+            return None
+        e = s_['expr']
+        attrs = [a for a in (e.get('attrs') or []) if a.get('name') == 'cfg']
+        if len(attrs) != 1:
+            return None
+        e2 = dict(e)
+        e2['attrs'] = [a for a in (e.get('attrs') or []) if a.get('name') != 'cfg']
+        while e2.get('k') == 'Block' and len(e2['stmts']) == 1 and e2['stmts'][0]['k'] == 'Expr' and not e2['stmts'][0]['semi']:
+            e2 = e2['stmts'][0]['expr']
+        parts.append((attrs[0], e2))
+    out = []
+    for attr, e2 in parts:
+        d = dict(st)
+        d['init'] = e2
+        d['attrs'] = [attr]
+        out.append(d)
+    return out
 
 
 def _any_let(st):
@@ -80,6 +111,8 @@ def norm(n):
         out = []
         for st in n['stmts']:
             rep = _any_let(st)
+            if rep is None:
+                rep = _cfg_block_let(st)
             out.extend(rep if rep is not None else [st])
         n['stmts'] = out
     if k == 'Try':
@@ -221,6 +254,25 @@ def norm(n):
                 inner = {'k': 'If', 'cond': cond, 'then': then, 'else': None, 'l': l}
                 return {'k': 'For', 'pat': pat['elems'][0], 'expr': ex['recv'], 'label': None, 'l': l, 'desugared': 'find',
                         'body': {'k': 'Block', 'stmts': [{'k': 'Expr', 'expr': inner, 'semi': False, 'l': l}], 'l': l}}
+    if k == 'If' and n.get('else') is not None and isinstance(n.get('cond'), dict) and n['else'].get('k') == 'Block':
+        c = n['cond']
+        while c.get('k') == 'Paren':
+            c = c['expr']
+        flipped = None
+        if c.get('k') == 'Binary' and c.get('op') == '!=':
+            flipped = dict(c)
+            flipped['op'] = '=='
+        elif c.get('k') == 'Unary' and c.get('op') == '!':
+            flipped = c['expr']
+            while flipped.get('k') == 'Paren':
+                flipped = flipped['expr']
+            if flipped.get('k') == 'Let':
+                flipped = None
+        if flipped is not None:
+            n = dict(n)
+            n['cond'] = flipped
+            n['then'], n['else'] = n['else'], n['then']
+            n['desugared'] = 'flipped'
     if k == 'If':
         c = n.get('cond')
         while isinstance(c, dict) and c.get('k') == 'Paren':
